@@ -312,8 +312,10 @@ fn main() {
         for k in 0..nkeys { let n = around(&mut rng, c.cap()); for _ in 0..n { tr.push(k * 1_000_003 + 5); } }
         if tr.is_empty() { tr.push(5); }
         if rng.chance(2, 3) { rng.shuffle(&mut tr); }
-        let t0 = Instant::now();
+        // keyed buckets are created on first use: the clock bracket starts after construction
+        // (LruCache::new pre-allocates 100000 slots, which takes tens of milliseconds)
         let eng: Engine<u64> = Engine::new(c.engine_cfg());
+        let t0 = Instant::now();
         let obs: Vec<bool> = tr.iter().map(|k| eng.try_consume_key(k)).collect();
         let t = t0.elapsed().as_nanos();
         if (c.max as u128) * t >= c.window_ns || t > c.window_ns { sum.discarded_ambiguous += 1; continue; }
@@ -371,8 +373,9 @@ fn main() {
         let (tr, kind) = join_scenario(&mut rng, &jc);
         if tr.is_empty() { continue; }
         let ips: Vec<IpAddr> = tr.iter().map(|a| a.ip()).collect();
-        let t0 = Instant::now();
+        // all four engines are keyed (the global one by the constant 0): buckets are created on first use
         let lim = JoinRateLimiter::new(jc.real());
+        let t0 = Instant::now();
         let obs: Vec<JR> = ips.iter().map(|ip| jconv(&lim.check_join_allowed(ip))).collect();
         let t = t0.elapsed().as_nanos();
         if (jc.maxmax() as u128) * t >= JOIN_MIN_WINDOW_NS { sum.discarded_ambiguous += 1; continue; }
@@ -418,8 +421,8 @@ fn main() {
         let c = pick_cfg(&mut rng);
         let nkeys = rng.range(1, 3);
         let per_thread = rng.range(1, 6) as usize + c.cap() as usize / 4;
-        let t0 = Instant::now();
         let eng: Arc<Engine<u64>> = Arc::new(Engine::new(c.engine_cfg()));
+        let t0 = Instant::now();
         let mut results: Vec<(u64, bool)> = vec![];
         std::thread::scope(|s| {
             let hs: Vec<_> = (0..8u64).map(|t| { let e = eng.clone(); s.spawn(move || {
@@ -448,8 +451,8 @@ fn main() {
         let mut lists: Vec<Vec<Addr>> = vec![];
         let (shared, _) = join_scenario(&mut rng, &jc);
         for t in 0..8 { let mut l = shared.clone(); let mut r2 = rng.fork(); r2.shuffle(&mut l); l.truncate(3 + t % 4); lists.push(l); }
-        let t0 = Instant::now();
         let lim = Arc::new(JoinRateLimiter::new(jc.real()));
+        let t0 = Instant::now();
         let mut outs: Vec<(Addr, JR)> = vec![];
         std::thread::scope(|s| {
             let hs: Vec<_> = lists.iter().map(|l| { let lim = lim.clone(); s.spawn(move || l.iter().map(|a| (*a, jconv(&lim.check_join_allowed(&a.ip())))).collect::<Vec<_>>()) }).collect();
